@@ -201,8 +201,9 @@ CLAIMS = {
          "C16_interval_retires_within_one_period (+ C16_task_finishes_when_function_declines from the scheduler model). Each run executes a "
          "counting iterator, a scripted stream and an interval (hook scheduler, virtual clock) in main position and as either input of each "
          "two-input operator, in front of chains made of 9 cutting operators x 30 intermediates (before / after) and random deeper chains, local "
-         "and _threads forms, and compares pulls / task liveness / trace with the model. flat_map / group_by / scheduler-moving operators between "
-         "producer and cutter are covered by the static table only.", "DESIGN.md section 5 C16"),
+         "and _threads forms, and compares pulls / task liveness / trace with the model; flat_map / concat_map over of(v) and group_by followed "
+         "by flat_map are among the intermediates (identity nodes in the model: the back channel must pass through them). Scheduler-moving "
+         "operators between producer and cutter are covered by the static table only (behind them the stream ends in a later task).", "DESIGN.md section 5 C16"),
  "C15": ("Theorems: C15_exactly_once_right_after (for every sequence of items, completes, errors and unsubscriptions, each repeated at will, "
          "with finalize alone or with take(n) before or after it: the callback runs in the segment of the first trigger - first unsubscription, "
          "first terminal reaching the operator, or the item completing an upstream take - as the last thing there, and nowhere else), "
